@@ -14,15 +14,17 @@ CONSTANTS
   FRoutes = {"direct", "std"}
   StdSets = {{"a"}, {"m", "t"}, {"t"}}
   Sels = {0, 1}
-  Places = {0, 1, 10}
+  Places = {0, 10}
   NPoints = {3}
   XLevels = {8, 16, 24}
   YLevels = {1, 2, 3}
+  Probe = "all"
   Depth = 1
 INVARIANT Consistent
 INVARIANT TripIffPickup
 INVARIANT GradedIsMonotone
 INVARIANT BoundariesProbed
+INVARIANT RepsCoverStages
 INVARIANT DecoyFlips
 INVARIANT Stateless
 INVARIANT SwitchFollows
